@@ -117,18 +117,25 @@ def step (st : St) (line : String) : St × List String :=
               ({ st with nPubDecodable := st.nPubDecodable + 1, nDeliveries := st.nDeliveries + l.length, nDuplicates := st.nDuplicates + dups },
                [s!"ok {id}"])
       | none =>
-        -- undecodable bytes are outside the statement ("each signed VAA"); the model says: Publish returns at the first
-        -- subscription WITH filters in map order, so a prefix of the unfiltered ones has been served — compared order-independently
+        -- model (`sends none`): subscriptions WITH filters are skipped (no emitter to match), every subscription without
+        -- filters gets one copy, and the decode error is returned iff some subscription has filters
         let filtered := st.subs.filter fun (_, f) => !f.isEmpty
         let badF := filtered.filter fun (sid, _) => cnt sid != 0
         let unf := st.subs.filter fun (_, f) => f.isEmpty
-        if !badF.isEmpty then (st, [s!"diff {id} undecodable VAA reached a filtered subscriber"])
-        else if filtered.isEmpty then
-          if res = "nil" && unf.all (fun (sid, _) => cnt sid == 1) then ({ st with nPubUndecodable := st.nPubUndecodable + 1 }, [s!"ok {id}"])
-          else (st, [s!"diff {id} undecodable VAA, no filtered subscriber: model=nil, one copy to each; impl={res} {kv rest "recv"}"])
+        -- Spec (statement, first sentence): "delivered to every subscriber that has no filters" needs no decoding.  For bytes that
+        -- are what `Marshal` writes for a signed VAA (here: one with an empty payload, which `Unmarshal` rejects) the clause
+        -- is claimed; for arbitrary garbage (not a VAA) the statement says nothing.
+        let unserved := unf.filter fun (sid, _) => cnt sid == 0
+        if kv rest "ep" = some "1" && !unserved.isEmpty then
+          (st, [s!"spec {id} unfiltered-subscriber-not-served a signed VAA with an empty payload was published (Publish returned {res}); subscriber(s) {unserved.map (·.1)} have no filters but received nothing (subscriptions in registration order: {st.subs.map fun (sid, f) => s!"#{sid}:{showFilters f}"})"])
         else
-          if res = "err" && unf.all (fun (sid, _) => cnt sid ≤ 1) then ({ st with nPubUndecodable := st.nPubUndecodable + 1 }, [s!"ok {id}"])
-          else (st, [s!"diff {id} undecodable VAA with a filtered subscriber: model=err, at most one copy to unfiltered ones; impl={res} {kv rest "recv"}"])
+        if !badF.isEmpty then (st, [s!"diff {id} undecodable VAA reached a filtered subscriber"])
+        else
+          let (l, e) := sends none st.subs
+          let want := if e then "err" else "nil"
+          let bad := st.subs.filter fun (sid, _) => l.count sid != cnt sid
+          if res = want && bad.isEmpty then ({ st with nPubUndecodable := st.nPubUndecodable + 1 }, [s!"ok {id}"])
+          else (st, [s!"diff {id} undecodable VAA: model={want}, copies {l}; impl={res} {kv rest "recv"}"])
     | _, _, _ => (st, [s!"diff {id} unparsable spypub line"])
   | "spyleave" :: id :: rest =>
     match kvNat rest "id", kv rest "how", kv rest "res", kvNat rest "removed" with
